@@ -129,7 +129,7 @@ def run_tlc(module, cfg_text, *, workers=16, env=None, extra=(), timeout=3600, c
         cfgp = os.path.join(wd, f"{module}_run.cfg")
         with open(cfgp, "w") as fh:
             fh.write(cfg_text)
-        java = ["java", "-XX:+UseParallelGC"]
+        java = ["java", "-XX:+UseParallelGC", f"-Djava.io.tmpdir={wd}"]      # (TLC's own temporary directories go with wd)
         java.append(f"-Xmx{heap or '4g'}")      # (the JVM's own default would be a quarter of the machine per process)
         if dfs:
             java.append("-Dtlc2.tool.queue.IStateQueue=StateDeque")
